@@ -289,6 +289,12 @@ class G2:
                     while lp is not None and not (lp.get("k") == "Loop"):
                         lp = pm.get(id(lp))
                     if lp is not None:
+                        # `while let Some((node, state)) = q.pop()`: an item that carries more than the node, under a visited set
+                        # keyed by the node alone, is processed with the state of whichever path arrives first - in a
+                        # worklist refilled in hash order that is a hash-order decision
+                        carried = self._worklist_item_state(pm, par, lp)
+                        if carried:
+                            verdicts.append(("UNSAFE", f"the worklist `{name}` is refilled in hash order and its items carry `{carried[1]}` besides the node, but a node is visited once (`{carried[0]}`): which path's `{carried[1]}` is used at a join depends on the hash order", par))
                         verdicts.append(self.loop_body(f, lp["body"], set(), depth + 1))
                     else:
                         verdicts.append(("UNSAFE", f"`{name}.{m}()` selects an element by position", par))
@@ -298,6 +304,36 @@ class G2:
             verdicts.append(self.chain(f, x, "seq", depth + 1))
         v = worst(verdicts)
         return (v[0], (why + "; " if why else "") + v[1], v[2] or after)
+
+    def _worklist_item_state(self, pm, pop, lp):
+        """(visited test, extra binding) if the popped item is a tuple/struct of several bindings and the loop's visited test names only one of them"""
+        x = pop
+        pat = None
+        for _ in range(5):
+            x = pm.get(id(x))
+            if x is None:
+                break
+            if x.get("k") == "LetExpr" and x.get("pat") is not None:
+                pat = x["pat"]
+                break
+            if x.get("k") == "Match" and x.get("arms"):
+                for a_ in x["arms"]:
+                    if any(b_.get("k") == "PBinding" for b_ in walk(a_["pat"])):
+                        pat = a_["pat"]
+                break
+        if pat is None:
+            return None
+        names = [b_["name"] for b_ in walk(pat) if b_.get("k") == "PBinding"]
+        if len(names) < 2:
+            return None
+        tests = [m for m in walk(lp["body"], pats=False) if m.get("k") == "MethodCall" and m["name"] in ("contains", "insert") and "HashSet" in (recv_ty(m) or m["recv"].get("ty") or "")]
+        for t in tests:
+            used = {y.get("res") for a_ in t["args"] for y in walk(a_, pats=False) if y.get("k") == "Path" and y.get("res_kind") == "Local"}
+            hit = [n for n in names if n in used]
+            if hit and len(hit) < len(names):
+                missing = [n for n in names if n not in used]
+                return (ekey(t)[:40], missing[0])
+        return None
 
     def param_var(self, callee, index, depth):
         g = self.F.fns.get(callee)
